@@ -333,6 +333,7 @@ def shards(tier, seed):
                         'kind': kind, 'rng': rk, **lim})
     for rk in RNG_KINDS:
         out.append({'name': f'compose-{rk}', 'what': 'compose', 'rng': rk, **lim})
+    out.append({'name': 'slow-consumer', 'what': 'slow', **lim})
     return out
 
 
@@ -386,6 +387,30 @@ def run_shard(spec, res):
         res.sample({'shuffle': kind, 'rng': spec['rng'], 'n': 3,
                     'interleaving': [0, 0, 1, 0, 1, 1, 0, 1],
                     'note': 'iterator index of each successive next() call'})
+    elif spec['what'] == 'slow':
+        # shuffled data behind a background hand-over, with a consumer that
+        # stalls for more than a second (a training step): still a permutation
+        import time
+        for kind, b_ in (('reshuffle', None), ('local', 3), ('once', None)):
+            for pf in ((1, 2), (2, 2)):
+                if kind == 'local' and pf[0] > 1:
+                    continue
+                n = 12
+                ds = shuffled(ld, kind, n, b_, 'RandomState', base + 5).prefetch(*pf)
+                out = []
+                for j, x in enumerate(ds):
+                    out.append(x)
+                    if j == 1:
+                        time.sleep(1.3)
+                case = {'shuffle': kind, 'n': n, 'b': b_, 'prefetch': list(pf),
+                        'consumer_stalls_after': 1, 'stall_seconds': 1.3}
+                res.case(('slow', kind, pf), True)
+                res.count('iterators_checked')
+                res.count('slow_consumer_iterators_checked')
+                if not is_perm(out, n):
+                    res.violation('not-a-permutation', case, {'out': out},
+                                  sig={'shuffle': kind + '+prefetch', 'concurrent': False,
+                                       'consumer': 'slow'})
     elif spec['what'] == 'compose':
         for how in ('zip', 'intersperse', 'concatenate', 'zip-items'):
             for kind in ('reshuffle', 'local', 'once'):
